@@ -25,3 +25,25 @@ let () =
         let rs = List.map (fun v -> string_of_int (int_of_nat (Model.find_bytes (bool_of_tok nf) (bool_of_tok asc) idx (bytes_of_tok v)))) (split_on ',' probes) in
         String.concat "," rs
     | _ -> failwith "c06.find_bytes args")
+
+(* the column index of a MultiRowGroup column chunk: chunks separated by ';',
+   a chunk is <IsAscending of its own index>@<pages>; answer: the IsAscending
+   flag isOrdered computes, ';', Find's answer for every probe *)
+let chunk page tok =
+  match String.split_on_char '@' tok with
+  | [a; pages] -> (bool_of_tok a, list_of_tok page pages)
+  | _ -> failwith "chunk"
+
+let () =
+  register "c06.multi_find_z" (function
+    | [nf; chunks; probes] ->
+        let chunks = List.map (chunk page_z) (split_on ';' chunks) in
+        let rs = List.map (fun v -> string_of_int (int_of_nat (Model.multi_find_Z (bool_of_tok nf) chunks (z_of_hex v)))) (split_on ',' probes) in
+        tok_of_bool (Model.multi_ascending_Z chunks) ^ ";" ^ String.concat "," rs
+    | _ -> failwith "c06.multi_find_z args");
+  register "c06.multi_find_bytes" (function
+    | [nf; chunks; probes] ->
+        let chunks = List.map (chunk page_b) (split_on ';' chunks) in
+        let rs = List.map (fun v -> string_of_int (int_of_nat (Model.multi_find_bytes (bool_of_tok nf) chunks (bytes_of_tok v)))) (split_on ',' probes) in
+        tok_of_bool (Model.multi_ascending_bytes chunks) ^ ";" ^ String.concat "," rs
+    | _ -> failwith "c06.multi_find_bytes args")
